@@ -120,7 +120,7 @@ func export(cmd *cobra.Command, args []string) error {
 	// compose genesis
 	genesis := types.GenesisDoc{
 		GenesisTime:   time.Unix(0, 0).Add(genesisTime),
-		InitialHeight: int64(height),
+		InitialHeight: int64(height) + 1,
 		ChainID:       chainID,
 		ConsensusParams: &tmproto.ConsensusParams{
 			Block: tmproto.BlockParams{
